@@ -483,6 +483,8 @@ func c07(seed uint64, n int) {
 		panic(err)
 	}
 	for i, c := range cases {
+		// request ids unique within the run: a failed case can leave chunks queued under its id on the receiver
+		c.req = c.req&0xffff0000 | uint32(i&0xffff)
 		l := &big
 		if c.kind == "toy" && c.cs == 0 {
 			l = &small
